@@ -27,7 +27,7 @@ class SolveAnalysis:
         self.pdata0 = E.param_data() if aux else None
         self.odata0 = E.obs_data() if aux else None
         self.val0 = ValToken() if validation else None
-        self.tracked = E.Params.make(nn_params=None, eq_params={'a': True}) if tracked else None
+        self.tracked = E.Params.make(nn_params=None, eq_params={'a': True, 'b': None}) if tracked else None   # 'b' exists and is NOT tracked
         self.is_tracked = tracked
         self.n_iter = K('n_iter')
         self.opt_state0 = Sym('opt_state_in') if opt_state_given else None
@@ -63,7 +63,7 @@ class SolveAnalysis:
         lc = E.LossContainer.make(stored_loss_terms={k: Sym(f'hist_{k}_{tag}') for k in TERM_KEYS},
                                   train_loss_values=Sym(f'hist_total_{tag}'))
         so = E.StoredObjectContainer.make(stored_params=E.Params.make(
-            nn_params=None, eq_params={'a': (Sym(f'hist_a_{tag}') if self.tracked is not None else None)}))
+            nn_params=None, eq_params={'a': (Sym(f'hist_a_{tag}') if self.tracked is not None else None), 'b': None}))
         val = ValToken(f'val_{tag}') if self.validation else None
         crit = Sym(f'crit_{tag}') if self.validation else None
         return (i, self.loss, opt, extra, td, val, lc, so, crit)
@@ -182,6 +182,8 @@ def compare_step(A, slots=None):
         done.append(name)
     if so2.fields['stored_params'].fields['nn_params'] is not None:
         raise Violation('tracked parameter history', "untracked nn_params stored", "None")
+    if so2.fields['stored_params'].fields['eq_params'].get('b') is not None:
+        raise Violation('tracked parameter history', "a history is stored for the untracked equation parameter b", "None")
     return done
 
 
